@@ -40,6 +40,22 @@ def gen_cases(ck):
                       "subset": None, "mobius": True, "strength": float(ck.rng.uniform(1.0, 2.5)), "kmin": 1, "kmax": [1, 3, 8][i % 3],
                       "param_mode": "uniform", "angle": 0.0, "scale": float(10.0 ** ck.rng.uniform(-1, 1)), "shift": [0.0, 0.0],
                       "p_rev": 0.5, "shifts": True, "relabel": False, "fit": ["dlite", "taubinSVD"][i % 2], "ignore_four": None, "axis_chord": True})
+    for i in range(10 if ck.tier == "quick" else 60):
+        # ragged sub-tissues of square / brick lattices given by two-point interfaces (notches, re-entrant corners, rim junctions of
+        # two and three cells), axis-parallel and rotated
+        cases.append({"type": "lattice", "seed": int(ck.rng.integers(1 << 30)), "tissue": ["square", "square", "brick"][i % 3],
+                      "nx": int(ck.rng.integers(3, 7)), "ny": int(ck.rng.integers(3, 6)), "subset": float(ck.rng.uniform(0.45, 0.85)),
+                      "kmin": 0, "kmax": [0, 0, 1][i % 3], "angle": [0.0, float(ck.rng.uniform(0, 6.28))][i % 2], "scale": [1.0, 0.25][i % 2],
+                      "shift": [0.0, 0.0], "fit": ["dlite", "taubinSVD"][i % 2], "ignore_four": [None, False, True][i % 3]})
+    shapes = {"notch": [(0, 2), (3, 2)] + [(i, 1) for i in range(4)] + [(i, 0) for i in range(4)],
+              "cross_with_notch": [(0, 2), (3, 2), (0, 1), (1, 1), (2, 1), (3, 1), (1, 0), (2, 0)],
+              "staircase": [(i, j) for i in range(4) for j in range(3) if j <= i],
+              "ring": [(i, j) for i in range(3) for j in range(3) if (i, j) != (1, 1)]}
+    for k, (name, cells) in enumerate(sorted(shapes.items())):
+        for ig in (None, True):
+            cases.append({"type": "lattice", "seed": int(ck.rng.integers(1 << 30)), "tissue": "square", "nx": 4, "ny": 3, "cells_ij": cells, "shape": name,
+                          "kmin": 0, "kmax": 0, "angle": [0.0, 0.7][k % 2], "scale": [1.0, 3.0][k % 2], "shift": [0.0, 0.0],
+                          "fit": ["dlite", "taubinSVD"][k % 2], "ignore_four": ig})
     lat = [(0, 0, 0.0, 1.0), (0, 0, math.pi / 2, 0.5), (2, 2, 0.0, 2.0), (1, 4, 0.0, 4.0)]
     k = 0
     for tissue in ("brick", "square"):
